@@ -95,14 +95,22 @@ PROPS = {
     # --- not yet claimed in MANIFEST (theorem modules pending): correspondence + monitors only ---
     "C02": {"module": None, "jobs": [cache_job(r"\.(store|ret|callbacks|buffer|clear)$", extra=["--collisions", "1", "--w-clear", "5"])], "assumptions": CACHE_ASSUME},
     "C04": {"module": None, "jobs": [cache_job(r"\.(store|expiry|policy|ret|callbacks|buffer|len)$", extra=["--w-ttl", "50"])], "assumptions": CACHE_ASSUME},
-    "C06": {"module": None, "jobs": [cache_job(r"\.(store|policy|callbacks|len|buffer)$", extra=["--collisions", "1"]), cache_job(r"\.(store|policy|callbacks|len|buffer)$", name="cache-plain")], "assumptions": CACHE_ASSUME},
+    "C06": {"module": "StrettoModel.Props.C06",
+            "jobs": [cache_job(r"\.(store|policy|callbacks|len|buffer)$", extra=["--collisions", "1"], quick_lives=14),
+                     cache_job(r"\.(store|policy|callbacks|len|buffer)$", name="cache-plain", quick_lives=14)],
+            "branches": ["padd.evicting", "padd.rejected", "padd.already_charged", "delete.resident", "delete.other_conflict", "delete.absent",
+                         "tick.reclaimed", "p.clear.buf1", "remove.resident", "remove.buffer_full", "insert.split"],
+            "assumptions": CACHE_ASSUME + ["guards of the theorem checked at run time on the implementation's observations: VictimsOk (no sampled victim is the incoming key) and TickOk (conflict hashes filed in due buckets pass the store's check)"]},
     "C08": {"module": None, "jobs": [cache_job(r"\.(store|callbacks|buffer|ret)$", extra=["--collisions", "1"]), cache_job(r"\.(store|callbacks|buffer|ret)$", name="cache-plain", extra=["--w-clear", "5"])], "assumptions": CACHE_ASSUME},
-    "C10": {"module": None, "jobs": [cache_job(r"\.(buffer|ret|wait|clear|close|closed)$", extra=["--w-wait", "10", "--w-close", "3", "--w-clear", "5"])],
+    "C10": {"module": "StrettoModel.Props.C10", "jobs": [cache_job(r"\.(buffer|ret|wait|clear|close|closed)$", extra=["--w-wait", "10", "--w-close", "3", "--w-clear", "5"])],
             "oracles": [{"name": "live-barrier", "run": live_oracle("C10", ["barrier", "protocol_storm"])}], "assumptions": CACHE_ASSUME},
     "C15": {"module": None, "jobs": [cache_job(r"\.(ring|metrics|ret|batch)$")], "assumptions": CACHE_ASSUME},
-    "C17": {"module": None, "jobs": [cache_job(r"\.(metrics|life|policy|ret)$", extra=["--w-clear", "4"])], "assumptions": CACHE_ASSUME},
+    "C17": {"module": None, "jobs": [cache_job(r"\.(metrics|life|policy|ret)$", extra=["--w-clear", "4"]), policy_job(r"^pol\..*(metrics|state)$")], "assumptions": CACHE_ASSUME},
     "C18": {"module": None, "jobs": [cache_job(r"\.(store|ret|callbacks)$", extra=["--collisions", "1"])], "assumptions": CACHE_ASSUME},
-    "C20": {"module": None, "jobs": [cache_job(r".*")],
+    "C20": {"module": "StrettoModel.Props.C20",
+            "jobs": [cache_job(r".*", name="config-sweep", extra=["--sweep", "1"], quick_ops=60, quick_lives=70, thorough_ops=150, thorough_lives=140, seeds={"quick": 1, "thorough": 8}),
+                     cache_job(r".*", quick_lives=10)],
+            "branches": ["finalize.ok", "finalize.InvalidNumCounters", "finalize.InvalidMaxCost", "finalize.InvalidBufferSize", "padd.evicting", "tick.reclaimed", "ring.flush.kept"],
             "oracles": [{"name": "live-completion", "run": live_oracle("C20", ["ttl_mix", "protocol_storm"])}], "assumptions": CACHE_ASSUME},
     "C09": {
         "module": "StrettoModel.Props.C09",
